@@ -423,6 +423,134 @@ fn vanished_server_run(ctx: &Ctx, out: &mut Outcome, run_seed: u64, r: &mut Rng)
     );
 }
 
+/// A connect token with timeouts DISABLED (timeout_seconds < 0): one client and the server transports, direct. After
+/// some traffic one side stops being updated for 1.5 - 8 s of the other side's virtual time (a suspended process, a
+/// long frame) while the other side keeps running, so nothing authentic arrives there for far longer than any usual
+/// timeout. Nobody asked for a disconnect and there is no timeout to run into: the session must still be there on both
+/// sides, and messages submitted after the pause arrive.
+fn timeouts_disabled_run(ctx: &Ctx, out: &mut Outcome, run_seed: u64, r: &mut Rng) {
+    let timeout_s: i32 = *r.pick(&[-1i32, -1, -5, i32::MIN]);
+    let dt: u64 = *r.pick(&[16u64, 50, 100]);
+    let mut key = [0u8; 32];
+    r.fill(&mut key);
+    let protocol = r.next_u64();
+    let (ssock, csock) = match (bind(), bind()) {
+        (Ok(a), Ok(b)) => (a, b),
+        _ => return out.inconclusive("C20: cannot bind loopback UDP sockets"),
+    };
+    let server_addr = ssock.local_addr().unwrap();
+    let mut st = match NetcodeServerTransport::new(
+        ServerConfig { current_time: Duration::ZERO, max_clients: 2, protocol_id: protocol, public_addresses: vec![server_addr], authentication: ServerAuthentication::Secure { private_key: key } },
+        ssock,
+    ) {
+        Ok(s) => s,
+        Err(e) => return out.inconclusive(&format!("C20: server transport: {e}")),
+    };
+    let mut server = RenetServer::new(conn_cfg(100));
+    let id = 4712u64;
+    let m = nsim::mint(r, 0, protocol, 600, id, timeout_s, &[server_addr], None, &key);
+    let mut ct = match NetcodeClientTransport::new(Duration::ZERO, ClientAuthentication::Secure { connect_token: m.token }, csock) {
+        Ok(t) => t,
+        Err(e) => return out.inconclusive(&format!("C20: client transport: {:?}", e)),
+    };
+    let mut client = RenetClient::new(conn_cfg(100));
+    let d = Duration::from_millis(dt);
+    let mut log: Vec<String> = vec![format!("token timeout {} s (disabled), tick {} ms", timeout_s, dt)];
+    let mut now_ms = 0u64;
+    let mut events: Vec<String> = Vec::new();
+    macro_rules! step {
+        ($srv:expr, $cli:expr) => {{
+            now_ms += dt;
+            if $srv {
+                server.update(d);
+                let _ = st.update(d, &mut server);
+                while let Some(e) = server.get_event() {
+                    events.push(format!("t={} {:?}", now_ms, e));
+                }
+            }
+            if $cli {
+                client.update(d);
+                let _ = ct.update(d, &mut client);
+            }
+            if $srv {
+                st.send_packets(&mut server);
+            }
+            if $cli {
+                let _ = ct.send_packets(&mut client);
+            }
+            // loopback delivery is asynchronous in principle: give the kernel a moment (virtual time decides)
+            std::thread::sleep(Duration::from_micros(50));
+        }};
+    }
+    let mut up = false;
+    for _ in 0..200 {
+        step!(true, true);
+        if client.is_connected() && server.is_connected(id) {
+            up = true;
+            break;
+        }
+    }
+    if !up {
+        out.count("timeouts_disabled_runs_void_no_session");
+        out.eval(mix(&[0x7C, run_seed]), false);
+        return;
+    }
+    for k in 0..r.range(2, 20) {
+        client.send_message(CH_RO, Bytes::from(payload::make(1, 0, CH_RO, 0, k, 40, 1)));
+        server.send_message(id, CH_RO, Bytes::from(payload::make(1, 1, CH_RO, 0, k, 40, 1)));
+        step!(true, true);
+    }
+    while client.receive_message(CH_RO).is_some() {}
+    while server.receive_message(id, CH_RO).is_some() {}
+    let pause_client = r.chance(1, 2);
+    let pause_ms = r.range(1500, 8000);
+    log.push(format!("t={} ms: the {} is not updated for {} ms of the other side's time", now_ms, if pause_client { "client" } else { "server" }, pause_ms));
+    let until = now_ms + pause_ms;
+    while now_ms < until {
+        step!(pause_client, !pause_client);
+    }
+    log.push(format!("t={} ms: both sides run again", now_ms));
+    let marker_up = payload::make(1, 0, CH_RO, 0, 900, 48, 2);
+    let marker_down = payload::make(1, 1, CH_RO, 0, 901, 48, 2);
+    let mut got = (false, false);
+    let mut sent = false;
+    for _ in 0..(2000 / dt + 40) {
+        step!(true, true);
+        if !sent && client.is_connected() && server.is_connected(id) {
+            client.send_message(CH_RO, Bytes::from(marker_up.clone()));
+            server.send_message(id, CH_RO, Bytes::from(marker_down.clone()));
+            sent = true;
+        }
+        while let Some(m) = server.receive_message(id, CH_RO) {
+            got.0 |= m[..] == marker_up[..];
+        }
+        while let Some(m) = client.receive_message(CH_RO) {
+            got.1 |= m[..] == marker_down[..];
+        }
+        if got == (true, true) || client.is_disconnected() || !server.is_connected(id) {
+            break;
+        }
+    }
+    out.count("timeouts_disabled_runs");
+    out.count(if pause_client { "timeouts_disabled_runs_client_paused" } else { "timeouts_disabled_runs_server_paused" });
+    out.eval(mix(&[0x7D, run_seed, pause_client as u64]), true);
+    let ok = client.is_connected() && server.is_connected(id) && got == (true, true) && !events.iter().any(|e| e.contains("ClientDisconnected"));
+    if !ok {
+        log.push(format!(
+            "t={} ms: client connected={} (renet reason {:?}, netcode reason {:?}); server has the client={}; markers obtained (up, down)={:?}; server events {:?}",
+            now_ms, client.is_connected(), client.disconnect_reason(), ct.disconnect_reason(), server.is_connected(id), got, events
+        ));
+        let side = if !server.is_connected(id) || events.iter().any(|e| e.contains("ClientDisconnected")) { "server" } else if !client.is_connected() { "client" } else { "messages-after-the-pause-not-delivered" };
+        out.violation(
+            ctx,
+            &format!("C20/healthy-session-ended/timeouts-disabled/{}", side),
+            "interference never disconnects an otherwise healthy session other than through timeouts (and this token disables them)",
+            format!("token timeout {} (disabled): after a pause of {} ms of the {} the session is not intact", timeout_s, pause_ms, if pause_client { "client" } else { "server" }),
+            json!({"property": "C20", "engine": ctx.engine, "run_seed": format!("{:#x}", run_seed), "mode": "timeouts-disabled", "log": log}),
+        );
+    }
+}
+
 /// A token lists two servers that share the private key (same host, two ports). The first one - reached through a
 /// small relay socket - accepts the client and streams to it, but everything it sends after the challenge is held
 /// back, so the client fails over to the second server and connects there. Then the first server's held datagrams
@@ -548,6 +676,11 @@ fn two_servers_run(ctx: &Ctx, out: &mut Outcome, run_seed: u64, r: &mut Rng) {
 
 fn one_run_inner(ctx: &Ctx, out: &mut Outcome, run_seed: u64) {
     let mut r = Rng::new(run_seed);
+    // own random stream, so that the other scenarios keep theirs
+    if ctx.replay_mode.as_deref() == Some("timeouts-disabled") || (ctx.replay_mode.is_none() && mix(&[0x70FF, run_seed]) % 24 == 0) {
+        let mut pr = Rng::new(run_seed ^ 0x70FF_D15A);
+        return timeouts_disabled_run(ctx, out, run_seed, &mut pr);
+    }
     if ctx.replay_mode.as_deref() == Some("vanished-server") || (ctx.replay_mode.is_none() && r.below(16) == 0) {
         return vanished_server_run(ctx, out, run_seed, &mut r);
     }
